@@ -15,6 +15,10 @@ confirmation run) stay in force as the outer net for anything that takes the wor
 """
 import json
 import os
+import re
+import shutil
+import subprocess
+import time
 
 import sup
 
@@ -100,6 +104,163 @@ def _reference_mpq_seeds(scratch, seed):
     return d
 
 
+# --------------------------------------------------------------------------------------------- stage F (thorough) ----
+# Coverage-guided input generation: libFuzzer + AddressSanitizer over the *same drivers* (harness/fuzz/fuzz_targets/fz.rs),
+# one fuzzing process group per format, started from the deterministic plan's seeds. The fuzzer judges nothing: everything it
+# keeps (new-coverage inputs, crash / oom / timeout / leak artifacts) is afterwards replayed by the native workers through
+# `--blobs-dir`, i.e. under the property's own monitors and signatures. Artifacts that the native replay does not flag are
+# re-run once under the fuzz binary: an AddressSanitizer memory-error report is a violation of its own, anything else
+# (stack depth or time that only the ~3x slower instrumented build runs out of) is counted and not judged.
+
+FUZZ_FORMATS = ["mpq", "mpq-special", "ptch", "m2", "skin", "anim", "adt", "wmo-root", "wmo-group", "blp", "dbc", "wdt", "wdl"]
+FUZZ_BIN_OF = {"mpq": "c05_mpq", "mpq-special": "c05_mpq", "ptch": "c05_mpq"}
+FUZZ_TARGET_DIR = sup.TARGET_BASE + "-fuzz"
+
+
+def _build_fuzz():
+    fz_dir = os.path.join(sup.HARNESS, "fuzz")
+    try:
+        shutil.copyfile(os.path.join(sup.REPO, "Cargo.lock"), os.path.join(fz_dir, "Cargo.lock"))
+    except OSError:
+        pass
+    env = dict(os.environ, CARGO_NET_OFFLINE="true", CARGO_TARGET_DIR=FUZZ_TARGET_DIR, CARGO_TERM_COLOR="never")
+    env.pop("RUSTFLAGS", None)
+    t = time.time()
+    p = subprocess.run(["cargo", "+nightly", "fuzz", "build", "-O", "--fuzz-dir", fz_dir, "fz"], cwd=fz_dir, env=env,
+                       stdout=subprocess.PIPE, stderr=subprocess.STDOUT, text=True)
+    out = os.path.join(FUZZ_TARGET_DIR, "x86_64-unknown-linux-gnu", "release", "fz")
+    if p.returncode != 0 or not os.path.exists(out):
+        return None, "\n".join(p.stdout.splitlines()[-25:])
+    sup.log(f"[build] harness/fuzz fz (libFuzzer+ASan) {time.time()-t:.1f}s")
+    return out, ""
+
+
+_STAT = re.compile(r"cov: (\d+) ft: (\d+) corp: (\d+)")
+
+
+def _fuzz_stage(res, tier, seed, scratch, secs, bins):
+    fz, why = _build_fuzz()
+    if not fz:
+        res.add_inconclusive("fuzz-stage-not-built")
+        res.notes.append("fuzz stage: build failed: " + why[-600:])
+        return {"built": False}
+    root = os.path.join(scratch, "fz")
+    corpus, arts, tmp, blobs = (os.path.join(root, d) for d in ("corpus", "artifacts", "tmp", "blobs"))
+    for d in (corpus, arts, tmp, blobs):
+        os.makedirs(d, exist_ok=True)
+    # initial corpus = the seeds of the deterministic plan (incl. the reference-written MPQ flavours)
+    for b, path in bins.items():
+        args = [path, "--dump-seeds", corpus, "--scratch", os.path.join(root, "seedtmp"), "--out", os.devnull, "--tier", tier]
+        if b == "c05_mpq" and bins.get("_seeds_dir"):
+            args += ["--seeds-dir", bins["_seeds_dir"]]
+        if not b.startswith("_"):
+            subprocess.run(args, stdout=subprocess.DEVNULL, stderr=subprocess.DEVNULL, timeout=600)
+    seeds_before = {}
+    procs = []
+    # 16 cores: every format gets one fuzzing job; the three families with the most code behind them get more
+    jobs = {"mpq": 3, "m2": 2, "adt": 2}
+    for f in FUZZ_FORMATS:
+        cd = os.path.join(corpus, f)
+        os.makedirs(cd, exist_ok=True)
+        seeds_before[f] = set(os.listdir(cd))
+        ad = os.path.join(arts, f) + os.sep
+        os.makedirs(ad, exist_ok=True)
+        td = os.path.join(tmp, f)
+        os.makedirs(td, exist_ok=True)
+        env = dict(os.environ, VH_FUZZ_FORMAT=f, VH_FUZZ_SCRATCH=td, TMPDIR=td, RUST_BACKTRACE="0",
+                   ASAN_OPTIONS="detect_odr_violation=0:detect_leaks=0:allocator_may_return_null=0:max_allocation_size_mb=4096")
+        cmd = [fz, cd, f"-max_total_time={secs}", "-timeout=10", "-rss_limit_mb=4096", "-malloc_limit_mb=256", "-max_len=262144",
+               f"-seed={1000 + int(seed)}", f"-fork={jobs.get(f, 1)}", "-ignore_crashes=1", "-ignore_timeouts=1", "-ignore_ooms=1",
+               f"-artifact_prefix={ad}", "-print_final_stats=1"]
+        lf = open(os.path.join(root, f"log-{f}.txt"), "w")
+        procs.append((f, subprocess.Popen(cmd, cwd=td, env=env, stdout=lf, stderr=subprocess.STDOUT), lf))
+    deadline = time.time() + secs + 300
+    for f, p, lf in procs:
+        try:
+            p.wait(timeout=max(5, deadline - time.time()))
+        except subprocess.TimeoutExpired:
+            p.kill()
+            res.notes.append(f"fuzz stage: {f} fuzzer did not stop by itself; killed")
+        lf.close()
+    shutil.rmtree(tmp, ignore_errors=True)
+    # what the fuzzers did (evidence), and the inputs handed to the native replay
+    info = {"built": True, "seconds_per_format": secs, "engine": "libFuzzer (cargo-fuzz 0.13, -O) + AddressSanitizer, fork mode, malloc_limit 256 MiB, timeout 10 s",
+            "per_format": {}}
+    MAXB = 30000
+    for f in FUZZ_FORMATS:
+        log = open(os.path.join(root, f"log-{f}.txt"), errors="replace").read()
+        st = _STAT.findall(log)
+        execs = [int(x) for x in re.findall(r"^#(\d+):? ", log, re.M)]
+        cd, ad = os.path.join(corpus, f), os.path.join(arts, f)
+        new_units = sorted(set(os.listdir(cd)) - seeds_before[f])
+        art = sorted(os.listdir(ad))
+        bd = os.path.join(blobs, f)
+        os.makedirs(bd, exist_ok=True)
+        for a in art:
+            shutil.copyfile(os.path.join(ad, a), os.path.join(bd, "art-" + a))
+        for u in new_units[:MAXB]:
+            shutil.copyfile(os.path.join(cd, u), os.path.join(bd, "cov-" + u))
+        kinds = {}
+        for a in art:
+            kinds[a.split("-")[0]] = kinds.get(a.split("-")[0], 0) + 1
+        info["per_format"][f] = {"executions": max(execs) if execs else 0, "coverage_edges": int(st[-1][0]) if st else 0, "features": int(st[-1][1]) if st else 0,
+                                 "seed_inputs": len(seeds_before[f]), "new_coverage_inputs": len(new_units), "artifacts": kinds,
+                                 "replayed_natively": len(art) + min(len(new_units), MAXB)}
+        res.add_counter("fuzz|executions", info["per_format"][f]["executions"])
+        res.add_counter("fuzz|new_coverage_inputs", len(new_units))
+        res.add_counter("fuzz|artifacts", len(art))
+        if not execs:
+            res.add_inconclusive(f"fuzz-stage-no-executions:{f}")
+            res.notes.append(f"fuzz stage {f}: " + log[-300:])
+    # native replay of everything kept, under the property's monitors
+    before = set(res.violations)
+    for b, path in bins.items():
+        if b.startswith("_"):
+            continue
+        sup.run_workers(res, path, ["--blobs-dir", blobs, "--blobs-only", "1"], tier, seed, scratch, nshards=sup.NCPU, case_timeout=420.0,
+                        crash_is_violation=True, total_timeout=2 * 3600.0, label=b + "-fuzz-")
+    # replay files of fuzz-stage violations name the input itself (the blobs directory does not outlive the run)
+    for sig, w in res.violations.items():
+        d = w.get("detail") or {}
+        m = d.get("mutation") if isinstance(d, dict) else None
+        if isinstance(m, dict) and m.get("kind") == "blob" and isinstance(w.get("replay"), dict):
+            r = dict(w["replay"])
+            r["args"] = [a for a in (r.get("args") or []) if a not in ("--blobs-dir", blobs, "--blobs-only", "1")]
+            r["witness"] = {"seed": d.get("seed"), "mutation": m}
+            w["replay"] = r
+    info["new_signatures_from_fuzz_inputs"] = sorted(set(res.violations) - before)
+    # artifacts the native replay did not flag: AddressSanitizer memory errors are violations of their own
+    asan = 0
+    unrepro = {}
+    for f in FUZZ_FORMATS:
+        ad = os.path.join(arts, f)
+        for a in sorted(os.listdir(ad))[:200]:
+            env = dict(os.environ, VH_FUZZ_FORMAT=f, VH_FUZZ_SCRATCH=os.path.join(root, "tmp2"), RUST_BACKTRACE="0",
+                       ASAN_OPTIONS="detect_odr_violation=0:detect_leaks=0:max_allocation_size_mb=4096")
+            os.makedirs(env["VH_FUZZ_SCRATCH"], exist_ok=True)
+            try:
+                p = subprocess.run([fz, os.path.join(ad, a), "-timeout=40", "-rss_limit_mb=4096", "-malloc_limit_mb=256"], env=env, cwd=root,
+                                   stdout=subprocess.PIPE, stderr=subprocess.STDOUT, text=True, errors="replace", timeout=120)
+                out = p.stdout
+            except subprocess.TimeoutExpired:
+                out = ""
+            m = re.search(r"ERROR: AddressSanitizer: ([a-zA-Z0-9_-]+)", out)
+            if m and m.group(1) not in ("allocation-size-too-big", "out-of-memory", "requested allocation size", "stack-overflow"):
+                frames = re.findall(r"#\d+ 0x[0-9a-f]+ in (\S+) (/repo/\S+?):\d+", out)
+                site = (frames[0][1].replace("/repo/", "") + ":" + frames[0][0].split("::")[-1]) if frames else "?"
+                data = open(os.path.join(ad, a), "rb").read()
+                res.add_violation(f"asan|{f}|{m.group(1)}|{site}", f"AddressSanitizer {m.group(1)} in the {f} driver at {site}",
+                                  {"format": f, "artifact": a, "report": out[-2500:], "mutation": {"kind": "blob", "name": a, "len": len(data), "hex": data.hex()}}, None)
+                asan += 1
+            else:
+                k = a.split("-")[0]
+                unrepro[f"{f}|{k}"] = unrepro.get(f"{f}|{k}", 0) + 1
+    shutil.rmtree(os.path.join(root, "tmp2"), ignore_errors=True)
+    info["asan_memory_error_reports"] = asan
+    info["artifacts_by_format_and_kind"] = unrepro
+    return info
+
+
 def run(tier, seed, scratch, t0):
     res = sup.Result("C05")
     seeds_dir = os.environ.get("VERIF_C05_MPQ_SEEDS") or _reference_mpq_seeds(scratch, seed)
@@ -111,6 +272,12 @@ def run(tier, seed, scratch, t0):
         # case_timeout: a batch may legitimately contain a handful of 6 s + 24 s hang confirmations
         sup.run_workers(res, binpath, args, tier, seed, scratch, nshards=sup.NCPU, case_timeout=420.0,
                         crash_is_violation=True, total_timeout=3 * 3600.0, label=binname + "-")
+    fuzz_info = None
+    secs = int(os.environ.get("VERIF_C05_FUZZ_SECS", "240" if tier == "thorough" else "0") or 0)
+    if secs > 0:
+        bins = {b: os.path.join(sup.TARGET_BASE, "release", b) for _, b, _ in WORKERS}
+        bins["_seeds_dir"] = seeds_dir
+        fuzz_info = _fuzz_stage(res, tier, seed, scratch, secs, bins)
     per_format = _per_format(res)
     missing = [f for f in FORMATS if f not in per_format or not per_format[f]["mutants_executed"]]
     if missing:
@@ -129,6 +296,8 @@ def run(tier, seed, scratch, t0):
         "mutants_executed": res.counters.get("mutants_executed", 0),
         "entry_point_calls": res.counters.get("entry_point_calls", 0),
     }
+    if fuzz_info is not None:
+        extra_cov["fuzz_stage"] = fuzz_info
     return sup.finish(res, tier, seed, "exploration", RULE, t0, assumptions=ASSUME, min_cases=100, extra_cov=extra_cov)
 
 
@@ -138,7 +307,14 @@ def replay(rp, scratch):
     r = dict(rp["replay"])
     w = r.pop("witness", None)
     if w:
-        r["args"] = list(r.get("args") or []) + ["--wseed", w["seed"], "--wmut", json.dumps(w["mutation"])]
+        mj = json.dumps(w["mutation"])
+        if len(mj) > 60000:
+            mf = os.path.join(scratch, "wmut.json")
+            with open(mf, "w") as f:
+                f.write(mj)
+            r["args"] = list(r.get("args") or []) + ["--wseed", w["seed"], "--wmut-file", mf]
+        else:
+            r["args"] = list(r.get("args") or []) + ["--wseed", w["seed"], "--wmut", mj]
         r["only"] = 0
     rp = dict(rp)
     rp["replay"] = r
